@@ -73,6 +73,12 @@ class Forwarder:
 
     def __init__(self, prog_paths, handler=None, probe=None, after=None, use_call_tracing=False):
         self.prog = set(prog_paths)
+        # (the forwarder is how the handler's function is installed here: the handler is told that its hooks are installed)
+        try:
+            if handler is not None:
+                handler._TriggerHandler__hooks_installed = True
+        except BaseException:
+            pass
         self.handler = handler
         self.probe = probe
         self.after = after
@@ -170,6 +176,11 @@ def run_installed(handler, func, *args):
     run = Run()
     old = sys.gettrace()
     oldt = threading.gettrace()
+    # (the harness installs the hooks itself, without handler.start(): the handler is told that its hooks are installed)
+    try:
+        handler._TriggerHandler__hooks_installed = True
+    except BaseException:
+        pass
     threading.settrace(handler.trace_call)
     sys.settrace(handler.trace_call)
     try:
